@@ -61,7 +61,8 @@ MODELLED_LOOP_CALLS = {
     (_O, _TP, "transpose_nodes"): {"_transpose_perm", "_node_output", "_first_input", "isinstance", "_consumer_nodes",
                                    "_value_is_observed", "remove"},
     (_O, _TP, "elem_nodes"): {"_node_output", "_value_is_observed", "_consumer_nodes", "_transpose_perm", "add",
-                              "_node_inputs", "enumerate", "replace_input_with"},
+                              "_node_inputs", "enumerate", "replace_input_with",
+                              "_op_type"},      # (/repo 3bba8a6) pure read of a node's domain/op_type: order-independent
     (_O, _TP, "output_transposes"): {"_node_output", "_first_input", "isinstance", "replace_all_uses_with"},
     (_O, _DR, "del_not_nodes"): {"_node_outputs", "uses", "is_graph_output", "append"},
 }
